@@ -128,6 +128,9 @@ def run(ctx):
                 b = bytes([t, 0, 0, 0]) + word + bytes(rng.randrange(256) for _ in range(plen))
                 scripts.append(('ic%d' % k, ['parse %s x%s' % (ent, b.hex()), 'ser', 'view', 'rt ' + ent]))
                 k += 1
+    for j in range(150 if quick else 3000):
+        b, _ = PC.ipv6_ext_packet(rng)
+        scripts.append(('x6%d' % j, ['parse IPv6 x' + b.hex(), 'ser', 'view', 'rt IPv6']))
     pairs = [c for c in corp if len(c[2].get('stack', [])) == 2 and not c[2].get('fields')]
     for j, (ecls, y, meta, _) in enumerate(pairs):
         scripts.append(('pp%d' % j, ['parse %s x%s' % (ecls, y.hex()), 'ser', 'view', 'rt ' + ecls]))
